@@ -560,8 +560,49 @@ def est_cases(ctx, job, static_names):
     return cases, fresh, fresh_job
 
 
+def _same(c, model, impl, spec_ok):
+    if c.canon == 'interleave':
+        def parse(t):
+            rf, outs = t.split(' ')
+            return rf, sorted(outs.split(';'))
+        return parse(model) == parse(impl)
+    return False
+
+
 def evaluate(ctx, cases):
-    _evaluate(ctx, cases)
+    _evaluate(ctx, cases, same=_same)
+
+
+# ------------------------------------------------------------------------------------------------
+# the interleaving semantics itself, against an independent brute force (Python) of the same definition
+# ------------------------------------------------------------------------------------------------
+def interleave_cases(ctx):
+    def brute(idx):
+        n = len(idx)
+        uniq = list(dict.fromkeys(idx))
+        res = set()
+
+        def rec(pc, regs, mem):
+            if all(p == 2 for p in pc):
+                res.add(tuple(mem[j] for j in uniq))
+                return
+            for t in range(n):
+                if pc[t] == 0:
+                    rec(pc[:t] + (1,) + pc[t + 1:], regs[:t] + (mem[idx[t]],) + regs[t + 1:], mem)
+                elif pc[t] == 1:
+                    m2 = dict(mem)
+                    m2[idx[t]] = regs[t] + 1
+                    rec(pc[:t] + (2,) + pc[t + 1:], regs, m2)
+        rec((0,) * n, (0,) * n, {j: 0 for j in uniq})
+        rf = len(set(idx)) == len(idx)
+        return ('1' if rf else '0') + ' ' + ';'.join(sorted(','.join(str(v) for v in o) for o in res))
+    out = []
+    pats = [[0], [0, 0], [0, 1], [1, 0, 1], [0, 1, 2], [2, 2, 2], [0, 0, 1]]
+    pats.append([ctx.rng.randrange(3) for _ in range(3)])
+    for idx in pats:
+        out.append(Case(('interleave', tuple(idx)), {'entry': 'ParFor.semantics'}, 'c16.interleave ' + ','.join(map(str, idx)),
+                        brute(idx), None, len(idx) > 1, {'f': 'interleave', 'idx': idx}, canon='interleave'))
+    return out
 
 
 # ------------------------------------------------------------------------------------------------
@@ -945,7 +986,7 @@ def run(ctx):
     cython_contract(ctx)
     phases['obligations'] = round(time.time() - t0, 1)
     names, static = _class_lists(ctx)
-    cases = crs_cases(ctx) + setparam_cases(ctx, names, static)
+    cases = crs_cases(ctx) + setparam_cases(ctx, names, static) + interleave_cases(ctx)
     # corpus first
     for item in _corpus(ctx):
         job = item['job']
